@@ -22,14 +22,14 @@ claims = {
          "Linked meta-page list walk, page-count prediction and header-field round trip not yet under contract. go-bin cells are modelled as opaque little-endian integers."),
  "C11": ("Avail formula of the data allocator (free list + room below the limit, noLimit iff unbounded), truncate lower bound, mmap size covers file and limit",
          "Per-operation count deltas of the allocator and FileStats formulas not yet under contract; leak freedom over histories is their induction."),
- "C14": ("open-time maintenance transaction releases every lock level and clears the pending flag for every callback (so readers and writers can begin afterwards); header checksum is recomputed over the final field values; Avail formula gives the grow delta",
-         "Header-field preservation of initTxMaxSize and shrink release not yet under contract."),
- "C15": ("method x life-cycle matrix of Tx proved for all states: Commit is not yet covered; Rollback/Close/Page/RootPage/Alloc/AllocN/CheckpointWAL/PageSize/getPage/beginTx: finished => error kind TxFinished (or TxReadOnly for writes), read-only => TxReadOnly, out-of-range => InvalidPageID, freed => InvalidOp, no panic, and preserved(): no pre-existing location changes",
-         "Page methods and queue (pq) misuse not yet under contract. The Tx type invariant wfTx is assumed at entry of every public method."),
- "C16": ("Validate <=> magic, version and checksum over all 12 protected fields; slot selection table of readValidMeta incl. signed wrap-around compare; never returns a header that does not validate; no panic under 'intact headers have distinct txids'",
-         "FNV-1a/32 is an uninterpreted function (collision on multi-byte damage assumed away); the offset of slot 1 is taken from slot 0's page size as the code does (the F11 candidate is not yet stated as an obligation)."),
- "C17": ("id order helpers and position parsing used by the counters",
-         "Pending/Active/Available formulas and callback deltas not yet under contract."),
+ "C14": ("open-time maintenance transaction releases every lock level and clears the pending flag for every callback (so readers and writers can begin afterwards); initTxMaxSize schedules exactly one header write, to the inactive slot, whose fields equal the active header except maxSize (rounded down to whole pages), txid+1 and the recomputed checksum, and switches the active slot only on success; Avail formula gives the grow delta",
+         "Shrink release (initTxReleaseRegions/releaseOverflowPages), the preallocation truncate of doGrowFile and what a later plain open reports are not under contract yet."),
+ "C15": ("queue: Reader.Available/Begin/Read on a closed reader => ReaderClosed, without transaction => InactiveTx, second Begin => UnexpectedActiveTx, no transaction begun; Writer.Write/Next/Flush on a closed writer => WriterClosed; Queue.Close leaves closed reader and acker objects behind so that ACK(n>0) on a closed queue => QueueClosed without beginning a transaction and Reader() hands out the closed reader (F12 fixed); all of them change nothing. Page methods (SetBytes/Load/MarkDirty/Free/Flush/Bytes) x page and transaction state. Method x life-cycle matrix of Tx proved for all states: Commit/Rollback/Close/Page/RootPage/Alloc/AllocN/CheckpointWAL/PageSize/getPage/beginTx: finished => error kind TxFinished (or TxReadOnly for writes), read-only => TxReadOnly, out-of-range => InvalidPageID, freed => InvalidOp, no panic, and preserved(): no pre-existing location changes",
+         "The type invariants wfTx / wfPage / wfReader / wfWriter / wfQueue are assumed at entry of every public method. Reader.Next, Reader.Done and Queue.Writer are not under contract; writing through a Writer obtained after Queue.Close is not covered (the property lists reading and ACKing)."),
+ "C16": ("Validate <=> magic, version and checksum over all 12 protected fields; slot selection table of readValidMeta incl. signed wrap-around compare; never returns a header that does not validate; no panic under 'intact headers have distinct txids'; an intact slot 1 must be found when only slot 0 is damaged (fails for damage in the page size field of slot 0: known finding F11, replayed)",
+         "FNV-1a/32 is an uninterpreted function (collision on multi-byte damage assumed away); file contents are an uninterpreted function of the offset."),
+ "C17": ("Pending == tail.id - start.id and Active == tail.id - start.id (0 on an empty queue) as functions of the persisted header only, with start = read position if set else head; lemma: the two different emptiness tests used by Pending and Active agree on every offset the queue writes; Reader.Available == endID - id (0 without a position); Flushed callback reports exactly the flushed count and only after success; ACKed callback and totals report exactly n and only after the commit; id order helpers and position parsing",
+         "Totals over a history are the (unmechanised) induction over these per-operation contracts; that tail.id advances by the number of events of a flush and read.id by n of an ACK is part of the abstract doFlush/initACK; reader id stepping (readInto/Next) is abstract."),
 }
 
 na = {
@@ -46,9 +46,15 @@ claims.update({
  "C07": ("allocArea.rollback restores the end marker and the free set exactly (unbounded, with the map-iteration visited-set model), dataAllocator.Free defers frees of committed pages, every error exit of tryCommitChanges leaves the published state untouched and releases the commit locks; known finding F6 (late truncate/mmap failure after publication) is recorded",
          "allocator.Rollback's move-back of meta-area growth, rollbackChanges' truncate and the reopen half of the statement are not under contract yet."),
 })
+claims.update({
+ "C18": ("release on all exits: Open returns with the path lock and the file handle released on every error exit (options invalid, open fails, lock fails, initialisation fails incl. the max-size branch that already released both through File.Close) and with both held on success; openWith either leaves lock and handle alone or releases both; File.Close releases both on every exit; osfs Lock/Unlock/doLock/doUnlock: locking twice is refused without touching the lock, a failed lock keeps nothing, unlock clears the handle only on success and releases whatever is held (representation invariant lockCoupled preserved)",
+         "Mutual exclusion between processes is the semantics of flock(2) behind github.com/gofrs/flock (assumed extern contracts; a failing OS-level unlock is outside the fault model). newFile (go statement), initNewFile, growFile/shrinkFile are abstract in openWith; three clauses of openWith about the representation of the concrete OS file are assumed (listed in evidence)."),
+})
+claims.update({
+ "C06": ("transaction bracket of an ACK (acker.cleanup): at most one write transaction, begun after the plan was computed, closed on every exit; every page free and the head/read/inuse header update happen on that transaction and the root page is marked dirty before its single Commit (call-site obligation); success means that Commit returned nil, the ACKed callback and the totals are updated only then and with exactly n; on every error exit nothing is reported. Flush side: flushBuffer reports exactly the flushed event count through the Flushed callback, only after a successful flush, and keeps the count for the retry after a failed one",
+         "Not decided: the crash quantifier (delegated to C01: a flush/ACK is one txfile commit), the flush transaction itself (doFlush: page allocation, linking, unassign on failure are abstract), the ACK plan (initACK/collectFreePages/findNewStartPositions abstract: which pages are kept, where reading resumes), re-initialisation from the persisted header. txfile's API is used through its contracts; the Page invariant of pages handed out by Tx.Page is an assumed postcondition."),
+})
 pending = {
- "C06": "not claimed yet: flush/ACK transaction bracket contracts under construction",
- "C18": "not claimed yet: Open/Close release contracts under construction",
 }
 
 checks = []
@@ -75,7 +81,7 @@ m = {
  "setup_cmd": "cd /verif/engine && GOFLAGS=-mod=vendor GOPROXY=off GOSUMDB=off GOTOOLCHAIN=local go build -o /verif/bin/govc ./cmd/govc",
  "hooks": {
   "guard": "verif",
-  "enable": "go build tag `verif` adds the comment-only contract files /repo/contracts_verif.go and /repo/pq/contracts_verif.go (no code: object files identical with and without the tag); govc loads /repo with -tags verif",
+  "enable": "go build tag `verif` adds the comment-only contract files /repo/contracts_verif.go, /repo/pq/contracts_verif.go and /repo/internal/vfs/osfs/contracts_verif.go (no code: object files identical with and without the tag); govc loads /repo with -tags verif",
   "baseline_off_cmd": "cd /repo && GOFLAGS=-mod=mod GOPROXY=off GOSUMDB=off GOTOOLCHAIN=local go build ./... && GOFLAGS=-mod=mod GOPROXY=off GOSUMDB=off GOTOOLCHAIN=local go test -vet=off -count=1 -timeout 25m ./...",
   "source_commits": hooks,
   "add_only": True,
